@@ -180,7 +180,7 @@ def describe_diff(a, b):
     return "equal"
 
 
-MODES = ["separate", "separate", "inplace", "fileobj", "over-longer"]
+MODES = ["separate", "separate", "inplace", "fileobj", "over-longer", "copy", "write-twice"]
 
 
 def roundtrip(text_path, is_molecule, label, mode="separate"):
@@ -201,6 +201,10 @@ def roundtrip(text_path, is_molecule, label, mode="separate"):
     elif mode == "over-longer":                 # the output path already holds a longer file
         with open(out1, "w", encoding="utf-8") as f:
             f.write(original + "\n[ bonds ]\n" + "1 2 1 0.1 1000 ; left over\n" * 50)
+    if mode == "copy":                          # the file is written from ItpFile.copy() (an equal but distinct object)
+        itp = lib("copy", itp.copy)
+    elif mode == "write-twice":                 # the same object written twice: both files carry everything
+        lib("write", itp.write, env.fresh_path(".itp"))
     lib("write", itp.write, out1)
     del itp
     with open(out1, encoding="utf-8") as f:
@@ -276,7 +280,7 @@ def check_text(case):
 
 def shipped_cases(tier, seed):
     names = sorted(f for f in os.listdir(env.DATA) if f.endswith(".itp"))
-    return [{"file": nm, "mode": m} for nm in names for m in ("separate", "inplace", "fileobj", "over-longer")], True
+    return [{"file": nm, "mode": m} for nm in names for m in ("separate", "inplace", "fileobj", "over-longer", "copy", "write-twice")], True
 
 
 def check_shipped(case):
